@@ -66,7 +66,7 @@ CLAIMED = {
             "frame obligation that encode / write / persist_msg(OUTBOUND) are only reached through send_msg. The history "
             "statement follows by induction from these clauses and the invariant they re-establish (induction not mechanised).",
             "DESIGN.md 4/C05",
-            "assumed: Journaler.persist_msg abstract contract (proved in C13), hooks do not touch connection state, "
+            "assumed: Journaler.persist_msg abstract contract (unchecked: C13 is not built), hooks do not touch connection state, "
             "transport write/drain do not raise; trusted: pyvc (60+ path witnesses per run replayed on CPython), z3",
             "contract-based deductive verification: VCs generated from the AST of the real functions, discharged by z3"),
 }
@@ -77,7 +77,9 @@ NOT_APPLICABLE = {
            "can express it (DESIGN.md 4/C07). Its per-endpoint ingredients are decided under C04, C05, C06, C09.",
 }
 
-PENDING_REASON = "check not built yet (build in progress); see DESIGN.md section 7 for the build order"
+PENDING_REASON = ("not decided: the contracts for this property were not built in the time available, so no verdict is "
+                  "claimed (this is not a statement that contract-based verification cannot express it); the planned "
+                  "functions, clauses and expected refutations are in DESIGN.md section 4, the status table in section 9")
 
 
 def main():
